@@ -32,7 +32,7 @@ def clock_reads(v: Any, acc: Optional[List[T.Term]] = None) -> List[T.Term]:
 _MUTATORS = {"add", "discard", "remove", "pop", "clear", "update", "difference_update", "intersection_update", "symmetric_difference_update", "append", "extend", "insert", "sort", "reverse"}
 
 
-def argument_mutation_rule(prog: Program, rep: Report, fkey: str, param_index: int) -> None:
+def argument_mutation_rule(prog: Program, rep: Report, fkey: str, param_index: int, rid: str = "R13.7") -> None:
     """R13.7 (structural): in-place changes of a collection parameter before the name is re-bound to a fresh object."""
     import ast
     fi = prog.func(fkey)
@@ -44,10 +44,30 @@ def argument_mutation_rule(prog: Program, rep: Report, fkey: str, param_index: i
         for n in ast.walk(st_):
             if isinstance(n, ast.Assign) and any(isinstance(t, ast.Name) and t.id == name for t in n.targets) and isinstance(n.value, ast.Call):
                 rebound_at = n.lineno if rebound_at is None else min(rebound_at, n.lineno)
+    # other names for the same object: `candidates = days` (a plain name-to-name assignment, no copy)
+    aliases = {name}
+    for _ in range(3):
+        for n in ast.walk(fi.node):
+            if isinstance(n, ast.Assign) and isinstance(n.value, ast.Name) and n.value.id in aliases and (rebound_at is None or n.lineno <= rebound_at or n.value.id != name):
+                for t in n.targets:
+                    if isinstance(t, ast.Name):
+                        aliases.add(t.id)
     for n in ast.walk(fi.node):
         line = getattr(n, "lineno", 0)
         if rebound_at is not None and line > rebound_at:
             continue
+        what = None
+        for name in sorted(aliases):
+            what = what or _mutation_of(n, name)
+        if what:
+            rep.bad(rid, f"{fi.qualname} changes its {fi.params[param_index]} argument", f"{fi.module.relpath}:{line} {fi.qualname}",
+                    f"{what} modifies the caller's collection: a later call with the same set (and the schedule object that owns it) no longer sees the removed / added days", key=f"{rid}|{fi.params[param_index]}")
+    return
+
+
+def _mutation_of(n: Any, name: str) -> Optional[str]:
+    import ast
+    if True:
         what = None
         if isinstance(n, ast.AugAssign) and isinstance(n.target, ast.Name) and n.target.id == name:
             what = f"`{ast.unparse(n)}` (an augmented assignment on a set / list changes the object in place)"
@@ -55,10 +75,7 @@ def argument_mutation_rule(prog: Program, rep: Report, fkey: str, param_index: i
             what = f"`{ast.unparse(n)}`"
         elif isinstance(n, (ast.Assign, ast.Delete)) and any(isinstance(t, ast.Subscript) and isinstance(t.value, ast.Name) and t.value.id == name for t in n.targets):
             what = f"`{ast.unparse(n)}`"
-        if what:
-            rep.bad("R13.7", f"{fi.qualname} changes its {name} argument", f"{fi.module.relpath}:{line} {fi.qualname}",
-                    f"{what} modifies the caller's collection: a later call with the same set (and the schedule object that owns it) no longer sees the removed / added days", key=f"R13.7|{name}")
-
+        return what
 
 def run(prog: Program, rep: Report, tier: str) -> None:
     argument_mutation_rule(prog, rep, FUNC, 1)
